@@ -133,6 +133,8 @@ func cat(xs ...[]op) []op {
 	return out
 }
 
+var lives = []string{"fresh", "clone", "clone-then-config", "changed", "switch", "clone-reconfig", "fork"}
+
 // the structured matrix
 func matrix(specs []srvSpec) []cell {
 	var cells []cell
@@ -161,11 +163,41 @@ func matrix(specs []srvSpec) []cell {
 					if needsCertSrv != sp.NeedCert && !(sp.NeedCert && ts.Name == "root") {
 						continue
 					}
-					for _, setter := range []string{"mut", "set", "set-np"} {
-						for _, life := range []string{"fresh", "clone", "clone-then-config", "changed"} {
+					for ti, setter := range []string{"mut", "set", "set-np"} {
+						for _, life := range lives {
 							po := protoOps(force, h3 && force != 3, (si+force)%2 == 0)
+							other := tlsSettings[(si+1+force)%len(tlsSettings)]
 							var ops []op
 							switch life {
+							case "switch":
+								// use the client, THEN force another version (or lift the forcing), use it, go back
+								f1 := (force + 1 + (si+ti)%3) % 4
+								if f1 == 3 && !sp.H3 {
+									f1 = (force + 1 + (si+ti+1)%3) % 4
+									if f1 == 3 {
+										f1 = (force + 1 + (si+ti+2)%3) % 4
+									}
+								}
+								ops = cat(tlsOps(setter, ts.T, nil), po, reqs(2), []op{{K: "force", N: f1}}, reqs(2),
+									[]op{{K: "force", N: force}}, reqs(1))
+							case "clone-reconfig":
+								// the original already carries non-default settings and connections; the clone is re-configured
+								ops = cat(tlsOps(setter, other.T, nil), po, reqs(1), []op{{K: "clone"}},
+									tlsOps(setter, ts.T, &other.T), reqs(2))
+							case "fork":
+								// a differently configured clone is used and dropped; the original must not notice
+								acts := []*op{nil, {K: "settls", TLS: &other.T}, {K: "skip", B: !ts.T.Skip}, {K: "root", N: 2 - si%2},
+									{K: "sname", S: []string{"other.test", "c12.test"}[ti%2]}, {K: "force", N: (force + 1 + ti) % 4}}
+								a := acts[(si+force+ti)%len(acts)]
+								if a != nil && a.K == "force" && a.N == 3 && !sp.H3 {
+									a = acts[1]
+								}
+								fk := []op{{K: "fork", F: a}}
+								if (si+ti)%2 == 0 {
+									ops = cat(tlsOps(setter, ts.T, nil), po, fk, reqs(2))
+								} else {
+									ops = cat(tlsOps(setter, ts.T, nil), po, reqs(1), fk, []op{{K: "closeidle"}}, reqs(2))
+								}
 							case "fresh":
 								ops = cat(tlsOps(setter, ts.T, nil), po, reqs(3))
 							case "clone":
@@ -174,12 +206,11 @@ func matrix(specs []srvSpec) []cell {
 								ops = cat(po, reqs(1), []op{{K: "clone"}}, tlsOps(setter, ts.T, nil), reqs(2))
 							case "changed":
 								// start from another setting, use the client, then move to the target setting
-								other := tlsSettings[(si+1+force)%len(tlsSettings)]
 								ops = cat(tlsOps(setter, other.T, nil), po, reqs(2), tlsOps(setter, ts.T, &other.T),
 									reqs(1), []op{{K: "closeidle"}}, reqs(2))
 							}
 							cells = append(cells, cell{
-								Shape: fmt.Sprintf("f%d-h3%v-%s-%s-%s", force, h3, ts.Name, setter, life),
+								Shape: fmt.Sprintf("f%d-h3%v-%s-%s-%s", force, h3, ts.Name, setter, life), Life: life,
 								Spec:  sp, Ops: ops})
 						}
 					}
@@ -262,7 +293,13 @@ func randomWalk(rng *hk.Rand, specs []srvSpec) cell {
 		case k < 12:
 			ops = append(ops, op{K: "h3"})
 		case k < 13:
-			ops = append(ops, op{K: "clone"})
+			if rng.Chance(50) {
+				ops = append(ops, op{K: "clone"})
+			} else {
+				acts := []*op{nil, {K: "skip", B: rng.Bool()}, {K: "root", N: rng.Range(1, 2)}, {K: "sname", S: hk.Pick(rng, []string{"", "c12.test", "other.test"})},
+					{K: "force", N: rng.Intn(3)}, {K: "settls", TLS: &tlsSettings[rng.Intn(len(tlsSettings))].T}}
+				ops = append(ops, op{K: "fork", F: hk.Pick(rng, acts)})
+			}
 		case k < 14:
 			ops = append(ops, op{K: "closeidle"})
 		case k < 15:
@@ -365,9 +402,27 @@ func run(r *hk.Run) {
 		r.Notes = append(r.Notes, fmt.Sprintf("matrix: %d cells (%d need a QUIC dial timeout)", len(all), len(slow)))
 		if r.Quick() {
 			// seeded sample: every (force, server) pair keeps at least a few cells
+			// (stratified by lifecycle: each of them gets the same share)
 			nFast, nSlow := 420, 3
-			for i := 0; i < nFast; i++ {
-				cells = append(cells, fast[rng.Intn(len(fast))])
+			byLife := map[string][]cell{}
+			for _, c := range fast {
+				if c.Life != "" {
+					byLife[c.Life] = append(byLife[c.Life], c)
+				}
+			}
+			for _, l := range lives {
+				for i := 0; i < nFast/len(lives); i++ {
+					cells = append(cells, byLife[l][rng.Intn(len(byLife[l]))])
+				}
+			}
+			var plain []cell
+			for _, c := range fast {
+				if strings.HasPrefix(c.Shape, "plain-") {
+					plain = append(plain, c)
+				}
+			}
+			for i := 0; i < 30; i++ {
+				cells = append(cells, plain[rng.Intn(len(plain))])
 			}
 			for _, c := range fast {
 				if strings.HasPrefix(c.Shape, "https-h2c-") && rng.Chance(12) {
